@@ -33,23 +33,23 @@ bool nondet_bool(void);
 #define C05_PEEK2(r) ((r)->offset < (r)->length && (r)->offset + 1 < (r)->length ? (int)(r)->data[(r)->offset + 1] : -1)
 
 /* ---------------------------------------------------------------------------------------------------------- ghosts */
-#define C05_GHOSTS_NUM
+#define C05_GHOSTS_NUM int nq, nc, nc2; uint64_t nacc; bool novf, nneg, nalpha, nhex; size_t nstart;
 #define C05_GHOSTS_STR
 extern size_t g_len, g_off, g_mk;                 /* reader-contract ghosts (contracts/RW_types.h, stubs/libc.h) */
-extern size_t g_cmk;                              /* ghost index used for skip_if's "matched bytes" clause (input ghost) */
 extern size_t g_wk;                               /* ghost index into the bytes consumed by skip_whitespace_and_comments (input ghost) */
 extern uint8_t g_b0, g_b1, g_b2, g_b3, g_b4, g_b5, g_b6, g_b7;      /* VERIF_SMALL: the input bytes (for the native replay) */
 /* ghosts written by the code under proof are members of two objects (one assigns target each: the cost of --dfcc grows with
  * the number of assigns targets) */
 struct c05_skip_ghost {
-  int c0, c1;                                     /* the two bytes at the cursor on entry */
+  int c0, c1, ce, ce2;                            /* the two bytes at the cursor on entry / on (normal) exit */
   size_t off0;                                    /* entry cursor */
   bool cm, k_ok, sc;                              /* spec automaton: inside a comment; byte g_wk consumed as the spec says; spec consumes the current byte */
 };
 struct c05_ghost {
   bool de;                                        /* disable_extensions of the call under proof (replay) */
   int pc;                                         /* byte at the cursor when JSON::parse is entered (-1: end) */
-  int root;                                       /* first byte after whitespace */
+  size_t cmk;                                     /* ghost index for skip_if's "matched bytes" clause */
+  int root; size_t rootoff;                       /* first byte after whitespace and its position */
   int cq; size_t cn, cend; bool csync;            /* containers: output mirrors of the per-activation locals verif_q, ... */
   int nt; uint64_t tok;                           /* number of abstract tokens, the last sixteen of them (replay) */
   int stage; size_t fin_off;                      /* entry points */
@@ -61,7 +61,7 @@ extern struct c05_ghost g_j;
 #define C05_GHOSTS C05_GHOSTS_LEAF, g_j
 
 /* every reader call: name the reader state for the C01/C02 contracts (RD_REQ) */
-#define RD(call) (g_len = r->length, g_off = r->offset, g_mk = g_cmk, (call))
+#define RD(call) (g_len = r->length, g_off = r->offset, g_mk = g_j.cmk, (call))
 
 /* ------------------------------------------------------------------------------------------------ common requires */
 #define C05_RD_REQ(r) __CPROVER_requires(__CPROVER_is_fresh(r, sizeof(StringReader))) __CPROVER_requires((r)->length <= C05_MAX) \
@@ -102,26 +102,41 @@ __CPROVER_assigns(verif_exc);
                         g_w.sc = C05_WSPEC_CONSUME(g_w.cm, verif_c, verif_c2, disable_extensions); \
                         if (r->offset == g_wk) g_w.k_ok = g_w.sc; \
                         g_w.cm = g_w.cm ? !(verif_c == '\n' || verif_c == '\r') : (!C05_ISWS(verif_c) && g_w.sc); }
+/* ghost at every normal exit: the two bytes at the final cursor */
+#define C05_SKIP_EXIT g_w.ce = C05_PEEK(r); g_w.ce2 = C05_PEEK2(r)
 /* the byte c (followed by c2) stops the scan */
 #define C05_WSTOP(c, c2, de) (!C05_ISWS(c) && ((de) || (c) != '/' || (c2) != '/'))
+#ifdef C05_LIGHT          /* callers that only need the cursor facts use a subset of the clauses (all are proved in the group of the function itself) */
+#define EFULL(x)
+#else
+#define EFULL(x) __CPROVER_ensures(x)
+#endif
 void skip_whitespace_and_comments(StringReader* r, bool disable_extensions)
 C05_RD_REQ(r)
 __CPROVER_requires(g_w.c0 == C05_PEEK(r) && g_w.c1 == C05_PEEK2(r))
 __CPROVER_ensures(verif_exc == 0 || verif_exc == EXC_out_of_range)
-__CPROVER_ensures(verif_exc != 0 ==> (!disable_extensions && C05_PEEK(r) == '/' && C05_PEEK2(r) == -1))
 __CPROVER_ensures(r->offset <= r->length && r->offset >= __CPROVER_old(r->offset))
+/* g_w.ce / g_w.ce2: the bytes at the final cursor (-1: end of input) */
+__CPROVER_ensures(verif_exc == 0 ==> g_w.ce == C05_PEEK(r))
+EFULL(verif_exc == 0 ==> g_w.ce2 == C05_PEEK2(r))
+__CPROVER_ensures(verif_exc == 0 ==> !C05_ISWS(g_w.ce))
 /* stops exactly where the spec automaton stops: at the end, or outside a comment at a byte that is not consumable */
-__CPROVER_ensures(verif_exc == 0 ==> (r->offset == r->length || (!g_w.cm && C05_WSTOP(C05_PEEK(r), C05_PEEK2(r), disable_extensions))))
-/* nothing to skip => nothing consumed */
-__CPROVER_ensures((__CPROVER_old(g_w.c0) == -1 || C05_WSTOP(__CPROVER_old(g_w.c0), __CPROVER_old(g_w.c1), disable_extensions)) ==> r->offset == __CPROVER_old(r->offset))
-__CPROVER_ensures((__CPROVER_old(g_w.c0) == -1 || (C05_WSTOP(__CPROVER_old(g_w.c0), __CPROVER_old(g_w.c1), disable_extensions) && (disable_extensions || __CPROVER_old(g_w.c0) != '/'))) ==> verif_exc == 0)
+EFULL(verif_exc == 0 ==> (g_w.ce == -1 || (!g_w.cm && C05_WSTOP(g_w.ce, g_w.ce2, disable_extensions))))
+EFULL(verif_exc != 0 ==> (!disable_extensions && C05_PEEK(r) == '/' && C05_PEEK2(r) == -1))
+/* nothing to skip => nothing consumed, no exception */
+__CPROVER_ensures((__CPROVER_old(g_w.c0) == -1 || (!C05_ISWS(__CPROVER_old(g_w.c0)) && (disable_extensions || __CPROVER_old(g_w.c0) != '/'))) ==> (verif_exc == 0 && r->offset == __CPROVER_old(r->offset)))
+EFULL((__CPROVER_old(g_w.c0) == -1 || C05_WSTOP(__CPROVER_old(g_w.c0), __CPROVER_old(g_w.c1), disable_extensions)) ==> r->offset == __CPROVER_old(r->offset))
 /* every consumed byte (ghost index g_wk) is one the spec consumes: ws, or -- extensions on -- part of a // comment */
-__CPROVER_ensures((__CPROVER_old(r->offset) <= g_wk && g_wk < r->offset) ==> g_w.k_ok)
-__CPROVER_ensures((disable_extensions && __CPROVER_old(r->offset) <= g_wk && g_wk < r->offset) ==> C05_ISWS(r->data[g_wk]))
+EFULL((__CPROVER_old(r->offset) <= g_wk && g_wk < r->offset) ==> g_w.k_ok)
+EFULL((disable_extensions && __CPROVER_old(r->offset) <= g_wk && g_wk < r->offset) ==> C05_ISWS(r->data[g_wk]))
 __CPROVER_assigns(verif_exc, r->offset, C05_GHOSTS_LEAF);
 
 /* ========================================================================================== JSON::parse (reader)
  * O-1 (also the induction hypothesis for the recursive calls inside the container loops): */
+#define C05_LIT_NULL(k) ((k) == 0 ? 'n' : (k) == 1 ? 'u' : 'l')
+#define C05_LIT_TRUE(k) ((k) == 0 ? 't' : (k) == 1 ? 'r' : (k) == 2 ? 'u' : 'e')
+#define C05_LIT_FALSE(k) ((k) == 0 ? 'f' : (k) == 1 ? 'a' : (k) == 2 ? 'l' : (k) == 3 ? 's' : 'e')
+#define C05_CONSUMED(r) ((r)->offset - g_j.rootoff)
 void JSON_parse(StringReader* r, bool disable_extensions, JVal* ret)
 C05_RD_REQ(r) C05_RET_REQ
 __CPROVER_requires(g_j.pc == C05_PEEK(r))
@@ -129,10 +144,24 @@ C05_TOTAL(r)
 /* success => at least one byte consumed.  Observation: a lone '+' is taken as the integer 0 and consumes nothing. */
 __CPROVER_ensures(verif_exc == 0 ==> (r->offset > __CPROVER_old(r->offset) || __CPROVER_old(g_j.pc) == '+'))
 __CPROVER_ensures(__CPROVER_old(g_j.pc) == -1 ==> verif_exc == EXC_out_of_range)
-__CPROVER_ensures(C05_ISCLOSER(__CPROVER_old(g_j.pc)) ==> verif_exc == EXC_parse_error)
+__CPROVER_ensures((C05_ISCLOSER(__CPROVER_old(g_j.pc)) && __CPROVER_old(g_j.cmk) == 0) ==> verif_exc == EXC_parse_error)
+/* the kind of the value is decided by the first byte after the whitespace */
+EFULL(verif_exc == 0 ==> ((g_j.root == '"') == (ret->kind == JV_STRING) && (g_j.root == '{') == (ret->kind == JV_DICT) && (g_j.root == '[') == (ret->kind == JV_LIST)))
+__CPROVER_ensures(verif_exc == 0 ==> ret->is_string == (ret->kind == JV_STRING))
+EFULL(verif_exc == 0 ==> ((g_j.root == '-' || g_j.root == '+' || C05_ISDIGIT(g_j.root)) == (ret->kind == JV_INT || ret->kind == JV_FLOAT)))
+/* constants (O-2): null / true / false are spelled out, or -- extensions on only -- abbreviated to their first letter
+ * (every byte of the literal at the ghost index g_j.cmk) */
+EFULL((verif_exc == 0 && ret->kind == JV_NULL) ==> (C05_CONSUMED(r) == 4 || (!disable_extensions && C05_CONSUMED(r) == 1)))
+EFULL((verif_exc == 0 && ret->kind == JV_BOOL && ret->b) ==> (C05_CONSUMED(r) == 4 || (!disable_extensions && C05_CONSUMED(r) == 1)))
+EFULL((verif_exc == 0 && ret->kind == JV_BOOL && !ret->b) ==> (C05_CONSUMED(r) == 5 || (!disable_extensions && C05_CONSUMED(r) == 1)))
+EFULL((verif_exc == 0 && ret->kind == JV_NULL && __CPROVER_old(g_j.cmk) < C05_CONSUMED(r)) ==> r->data[g_j.rootoff + __CPROVER_old(g_j.cmk)] == C05_LIT_NULL(__CPROVER_old(g_j.cmk)))
+EFULL((verif_exc == 0 && ret->kind == JV_BOOL && ret->b && __CPROVER_old(g_j.cmk) < C05_CONSUMED(r)) ==> r->data[g_j.rootoff + __CPROVER_old(g_j.cmk)] == C05_LIT_TRUE(__CPROVER_old(g_j.cmk)))
+EFULL((verif_exc == 0 && ret->kind == JV_BOOL && !ret->b && __CPROVER_old(g_j.cmk) < C05_CONSUMED(r)) ==> r->data[g_j.rootoff + __CPROVER_old(g_j.cmk)] == C05_LIT_FALSE(__CPROVER_old(g_j.cmk)))
 C05_ASSIGNS(r);
 #define C05_PARSE_ENTRY
-#define C05_PARSE_ROOT g_j.root = root_type_ch
+/* the blocks' contracts havoc g_j: the dispatcher keeps its ghosts in locals and mirrors them after every call */
+#define C05_PARSE_SYNC (g_j.root = verif_root, g_j.rootoff = verif_rootoff)
+#define C05_PARSE_ROOT int verif_root = root_type_ch; size_t verif_rootoff = r->offset; C05_PARSE_SYNC
 
 /* ============================================================================================ container loops (O-3)
  * Abstract token stream: structural bytes, end of input, and "a value starts here" (decided by the child call, which is
@@ -151,7 +180,7 @@ enum { CQ_START = 0, CQ_OPEN = 1, CQ_AFTERV = 2, CQ_AFTERC = 3, CQ_ACC = 4, CQ_R
 /* the opening bracket */
 #define C05_C_OPEN { verif_q = CQ_OPEN; C05_REC(1); C05_C_SYNC; }
 /* token boundary where a value or the closing bracket may come (after the opening bracket / after a comma) */
-#define C05_C_PEEK_A(close) { int verif_c = C05_PEEK(r); verif_sync = verif_sync && !C05_ISWS(verif_c); g_j.pc = verif_c; \
+#define C05_C_PEEK_A(close) { int verif_c = C05_PEEK(r); verif_sync = verif_sync && !C05_ISWS(verif_c); g_j.pc = verif_c; g_j.cmk = 0; \
     if (verif_q == CQ_OPEN || verif_q == CQ_AFTERC) { \
       if (verif_c == -1 || C05_ISCLOSER(verif_c)) C05_REC(C05_TOKCODE(verif_c, close)); \
       verif_q = verif_c == -1 ? CQ_TRUNC : verif_c == (close) ? ((verif_q == CQ_OPEN || !disable_extensions) ? CQ_ACC : CQ_REJ) : C05_ISCLOSER(verif_c) ? CQ_REJ : CQ_PENDING; \
@@ -170,7 +199,7 @@ enum { CQ_START = 0, CQ_OPEN = 1, CQ_AFTERV = 2, CQ_AFTERC = 3, CQ_ACC = 4, CQ_R
 #define C05_LIST_ENTRY C05_C_ENTRY
 #define C05_LIST_OPEN C05_C_OPEN
 #define C05_LIST_PEEK_A C05_C_PEEK_A(']')
-#define C05_LIST_PEEK_V g_j.pc = C05_PEEK(r)
+#define C05_LIST_PEEK_V g_j.pc = C05_PEEK(r); g_j.cmk = 0
 #define C05_LIST_CHILD_DONE C05_C_VAL_DONE(CQ_PENDING, verif_v)
 #define C05_LIST_PEEK_C C05_C_PEEK_C(']')
 
@@ -183,7 +212,7 @@ enum { CQ_START = 0, CQ_OPEN = 1, CQ_AFTERV = 2, CQ_AFTERC = 3, CQ_ACC = 4, CQ_R
 #define C05_DICT_PEEK_D { int verif_c = C05_PEEK(r); verif_sync = verif_sync && !C05_ISWS(verif_c); \
     if (verif_q == CQ_KEYOK) { C05_REC(C05_TOKCODE(verif_c, '}')); verif_q = verif_c == -1 ? CQ_TRUNC : verif_c == ':' ? CQ_COLON : CQ_REJ; } \
     C05_C_SYNC; }
-#define C05_DICT_PEEK_V { int verif_c = C05_PEEK(r); verif_sync = verif_sync && !C05_ISWS(verif_c); g_j.pc = verif_c; \
+#define C05_DICT_PEEK_V { int verif_c = C05_PEEK(r); verif_sync = verif_sync && !C05_ISWS(verif_c); g_j.pc = verif_c; g_j.cmk = 0; \
     if (verif_q == CQ_COLON) { if (verif_c == -1 || C05_ISCLOSER(verif_c)) C05_REC(C05_TOKCODE(verif_c, '}')); \
       verif_q = verif_c == -1 ? CQ_TRUNC : C05_ISCLOSER(verif_c) ? CQ_REJ : CQ_PENDV; } \
     C05_C_SYNC; }
@@ -199,7 +228,7 @@ __CPROVER_ensures(g_j.cq == CQ_REJ ==> verif_exc == EXC_parse_error) \
 __CPROVER_ensures(g_j.cq == CQ_TRUNC ==> verif_exc == EXC_out_of_range) \
 /* value: kind, number of members; extent: the cursor is right behind the closing bracket the spec accepted; every token \
  * boundary was reached with the whitespace skipped */ \
-__CPROVER_ensures(verif_exc == 0 ==> (ret->kind == (kindv) && ret->count == g_j.cn && !ret->is_string)) \
+__CPROVER_ensures(verif_exc == 0 ==> (ret->kind == (kindv) && ret->count == g_j.cn && ret->is_string == false)) \
 __CPROVER_ensures(verif_exc == 0 ==> (r->offset == g_j.cend && g_j.csync)) \
 __CPROVER_ensures(verif_exc == 0 ==> r->offset > __CPROVER_old(r->offset))
 
@@ -230,17 +259,74 @@ __CPROVER_loop_invariant((verif_q == CQ_OPEN && separator == (open) && expected_
 __CPROVER_decreases(r->length - r->offset)
 
 /* ================================================================================================== number (O-2) */
-#define C05_NUM_ENTRY
-#define C05_NUM_STEP 0
-#define C05_NUM_GO_STEP 0
+/* Ghost automaton for the RFC 8259 number grammar  -? ( 0 | [1-9][0-9]* ) ( . [0-9]+ )? ( [eE] [+-]? [0-9]+ )?
+ * plus the documented extension "hexadecimal integers"  -? 0x [0-9a-fA-F]+  (extensions on).  It is advanced over exactly the
+ * bytes the code consumes (macro RDC/RDG of the extracted text), one transition per byte. */
+enum { NQ_START = 0, NQ_MINUS = 1, NQ_ZERO = 2, NQ_INT = 3, NQ_DOT = 4, NQ_FRAC = 5, NQ_E = 6, NQ_ESIGN = 7, NQ_EXP = 8, NQ_HEXP = 9, NQ_HEX = 10, NQ_DEAD = 11 };
+#define C05_NUM_NEXT(q, c) ( \
+  (q) == NQ_START ? ((c) == '-' ? NQ_MINUS : (c) == '0' ? NQ_ZERO : ((c) >= '1' && (c) <= '9') ? NQ_INT : NQ_DEAD) : \
+  (q) == NQ_MINUS ? ((c) == '0' ? NQ_ZERO : ((c) >= '1' && (c) <= '9') ? NQ_INT : NQ_DEAD) : \
+  (q) == NQ_ZERO ? ((c) == '.' ? NQ_DOT : ((c) == 'e' || (c) == 'E') ? NQ_E : NQ_DEAD) : \
+  (q) == NQ_INT ? (C05_ISDIGIT(c) ? NQ_INT : (c) == '.' ? NQ_DOT : ((c) == 'e' || (c) == 'E') ? NQ_E : NQ_DEAD) : \
+  (q) == NQ_DOT ? (C05_ISDIGIT(c) ? NQ_FRAC : NQ_DEAD) : \
+  (q) == NQ_FRAC ? (C05_ISDIGIT(c) ? NQ_FRAC : ((c) == 'e' || (c) == 'E') ? NQ_E : NQ_DEAD) : \
+  (q) == NQ_E ? (((c) == '+' || (c) == '-') ? NQ_ESIGN : C05_ISDIGIT(c) ? NQ_EXP : NQ_DEAD) : \
+  ((q) == NQ_ESIGN || (q) == NQ_EXP) ? (C05_ISDIGIT(c) ? NQ_EXP : NQ_DEAD) : \
+  ((q) == NQ_HEXP || (q) == NQ_HEX) ? (C05_ISHEX(c) ? NQ_HEX : NQ_DEAD) : NQ_DEAD)
+/* the match can be extended by the byte c (followed by c2) */
+#define C05_NUM_HAS_NEXT(q, c, c2, de) (C05_NUM_NEXT(q, c) != NQ_DEAD || ((q) == NQ_ZERO && !(de) && (c) == 'x' && C05_ISHEX(c2)))
+#define C05_NUM_ACCEPTING(q) ((q) == NQ_ZERO || (q) == NQ_INT || (q) == NQ_FRAC || (q) == NQ_EXP || (q) == NQ_HEX)
+#define C05_NUM_INTEGRAL(q) ((q) == NQ_ZERO || (q) == NQ_INT || (q) == NQ_HEX)
+/* bytes a number (in either notation) is made of: a scanner that consumes anything else has run into the next token */
+#define C05_NUMCHAR(c) (C05_ISHEX(c) || (c) == '-' || (c) == '+' || (c) == '.' || (c) == 'x')
+#define C05_PEEK3(r) ((r)->offset < (r)->length && (r)->offset + 2 < (r)->length ? (int)(r)->data[(r)->offset + 2] : -1)
+#define C05_DEC_OVF(acc, d) ((acc) > 922337203685477580ull || ((acc) == 922337203685477580ull && (d) > 7))       /* acc * 10 + d > INT64_MAX */
+#define C05_NUM_ENTRY g_j.nq = NQ_START; g_j.nacc = 0; g_j.novf = 0; g_j.nneg = 0; g_j.nalpha = 1; g_j.nhex = 0; g_j.nstart = r->offset; g_j.nc = 0; g_j.nc2 = 0
+/* before every get_s8() that consumes a byte: one transition; Horner fold of the integer digits (decimal: base 10, hex: base 16) */
+#define C05_NUM_STEP (g_j.nc = C05_PEEK(r), \
+  g_j.nalpha = g_j.nalpha && C05_NUMCHAR(g_j.nc), \
+  g_j.nneg = g_j.nneg || (g_j.nq == NQ_START && g_j.nc == '-'), \
+  g_j.novf = g_j.novf || (((g_j.nq == NQ_START || g_j.nq == NQ_MINUS || g_j.nq == NQ_INT) && C05_ISDIGIT(g_j.nc)) ? C05_DEC_OVF(g_j.nacc, (unsigned)(g_j.nc - '0')) : \
+                          ((g_j.nq == NQ_HEXP || g_j.nq == NQ_HEX) && C05_ISHEX(g_j.nc)) ? (g_j.nacc >> 59) != 0 : 0), \
+  g_j.nacc = ((g_j.nq == NQ_START || g_j.nq == NQ_MINUS || g_j.nq == NQ_INT) && C05_ISDIGIT(g_j.nc)) ? g_j.nacc * 10 + (unsigned)(g_j.nc - '0') : \
+             ((g_j.nq == NQ_HEXP || g_j.nq == NQ_HEX) && C05_ISHEX(g_j.nc)) ? ((g_j.nacc << 4) | (unsigned)C05_HEXVAL(g_j.nc)) : g_j.nacc, \
+  g_j.nq = C05_NUM_NEXT(g_j.nq, g_j.nc))
+/* before go(where + 2): the two bytes `0x` are consumed at once */
+#define C05_NUM_GO_STEP (g_j.nhex = 1, g_j.nc = C05_PEEK(r), g_j.nc2 = C05_PEEK2(r), \
+  g_j.nalpha = g_j.nalpha && C05_NUMCHAR(g_j.nc) && C05_NUMCHAR(g_j.nc2), \
+  g_j.nq = ((g_j.nq == NQ_START || g_j.nq == NQ_MINUS) && g_j.nc == '0' && g_j.nc2 == 'x' && !disable_extensions && C05_ISHEX(C05_PEEK3(r))) ? NQ_HEXP : NQ_DEAD)
 #define C05_NUM_EXP_DIGIT
-#define C05_NUM_EXIT
+#define C05_NUM_EXIT g_j.nc = C05_PEEK(r); g_j.nc2 = C05_PEEK2(r)
+#ifdef C05_NUM_RESTRICT     /* numerals whose integer digits cannot overflow int64: at most 18 decimal / 15 hexadecimal digits (ghost witnesses: \
+                               the position of a byte that ends the digit run) */
+#define C05_NUM_DOMAIN \
+__CPROVER_requires(g_nw <= 18 && g_nwx <= 15) \
+__CPROVER_requires(r->offset + (root_type_ch == '-') + g_nw >= r->length || !C05_ISDIGIT(r->data[r->offset + (root_type_ch == '-') + g_nw])) \
+__CPROVER_requires(r->offset + (root_type_ch == '-') + 2 + g_nwx >= r->length || !C05_ISHEX(r->data[r->offset + (root_type_ch == '-') + 2 + g_nwx]))
+#else
+#define C05_NUM_DOMAIN
+#endif
+extern size_t g_nw, g_nwx;
 void JSON_parse_number(StringReader* r, bool disable_extensions, char root_type_ch, JVal* ret)
 C05_RD_REQ(r) C05_RET_REQ
 __CPROVER_requires(r->offset < r->length && (char)r->data[r->offset] == root_type_ch)
 __CPROVER_requires(root_type_ch == '-' || root_type_ch == '+' || C05_ISDIGIT(root_type_ch))
+C05_NUM_DOMAIN
 C05_TOTAL(r)
 __CPROVER_ensures(verif_exc == 0 ==> (r->offset > __CPROVER_old(r->offset) || root_type_ch == '+'))
+__CPROVER_ensures(verif_exc == 0 ==> ((ret->kind == JV_INT || ret->kind == JV_FLOAT) && ret->is_string == false))
+/* the only exception: the input ends right after the exponent marker (out_of_range, "unterminated") */
+EFULL(verif_exc != 0 ==> (verif_exc == EXC_out_of_range && (g_j.nq == NQ_E || g_j.nq == NQ_DEAD) && r->offset == r->length))
+/* never runs into the next token: every consumed byte is a byte numbers are made of */
+EFULL(g_j.nalpha)
+/* extent = longest match: while the consumed bytes are a prefix of a number, the scan stops only where no transition exists */
+EFULL((verif_exc == 0 && g_j.nq != NQ_DEAD) ==> !C05_NUM_HAS_NEXT(g_j.nq, g_j.nc, g_j.nc2, disable_extensions))
+/* kind: integer <=> neither fraction nor exponent */
+EFULL((verif_exc == 0 && C05_NUM_ACCEPTING(g_j.nq)) ==> ((ret->kind == JV_INT) == C05_NUM_INTEGRAL(g_j.nq)))
+/* integer value = Horner fold of the digits, for every numeral whose magnitude fits int64 */
+EFULL((verif_exc == 0 && C05_NUM_INTEGRAL(g_j.nq) && !g_j.novf) ==> (ret->kind == JV_INT && ret->i == (g_j.nneg ? -(int64_t)g_j.nacc : (int64_t)g_j.nacc)))
+/* hexadecimal notation only when extensions are enabled */
+EFULL(g_j.nhex ==> !disable_extensions)
 C05_ASSIGNS(r);
 
 /* ================================================================================================== string (O-2) */
@@ -254,11 +340,12 @@ C05_RD_REQ(r) C05_RET_REQ
 __CPROVER_requires(r->offset < r->length && r->data[r->offset] == '"')
 C05_TOTAL(r)
 __CPROVER_ensures(verif_exc == 0 ==> r->offset > __CPROVER_old(r->offset))
+__CPROVER_ensures(verif_exc == 0 ==> (ret->kind == JV_STRING && ret->is_string == true))
 C05_ASSIGNS(r);
 
 /* ============================================================================================= string entry points */
-#define C05_CSTR_ENTRY g_j.stage = 0
-#define C05_CSTR_PARSED g_j.stage = 1
+#define C05_CSTR_ENTRY g_j.stage = 0; g_j.pc = C05_PEEK(r); g_j.cmk = 0
+#define C05_CSTR_PARSED (g_j.stage = verif_exc ? -1 : 1)     /* (the callee's contract havocs g_j) */
 #define C05_CSTR_SKIPPED g_j.stage = 2; g_j.fin_off = r->offset
 void JSON_parse_cstr(const char* s, size_t size, bool disable_extensions, JVal* ret)
 __CPROVER_requires(size <= C05_MAX) __CPROVER_requires(__CPROVER_is_fresh(s, size)) C05_RET_REQ
